@@ -161,7 +161,7 @@ def match_finding(findings, prop, clause, e):
             if eval(kf["when"], {"__builtins__": {"len": len, "any": any, "all": all, "min": min, "max": max,
                                                   "set": set, "sorted": sorted, "abs": abs, "range": range,
                                                   "isinstance": isinstance, "list": list, "dict": dict, "str": str}},
-                    {"e": e, "clause": clause, "NA": -999999999}):
+                    {"e": e, "clause": clause, "NA": -999999999, "kf": __import__("kf_helpers")}):
                 return kf
         except Exception as ex:  # a broken predicate must not hide anything
             print("WARNING: finding %s predicate failed: %r" % (kf.get("id"), ex))
@@ -186,7 +186,7 @@ def report(ctx, owned_rejects, describe, replay_payload, example=None, max_print
         seen_sig[sig] = v
         ctx.violations.append(v)
     for kid, n in sorted(ctx.known.items()):
-        kf = [k for k in findings if k["id"] == kid][0]
+        kf = [k for k in findings if k.get("id") == kid][0]
         print("KNOWN-FINDING: property=%s %s [%s, %d occurrence(s) this run]" % (ctx.prop, kf["what"], kid, n))
     if ctx.violations:
         os.makedirs(ctx.replay_dir, exist_ok=True)
